@@ -134,6 +134,25 @@ def run (t : Tier) : Emit Unit := do
         let stale : PESHeader := { h with optionalHeader := some { o with extension2Length := (o.extension2Length + 5) % 128, headerLength := 0 } }
         emit "C12" (writeCase stale payload true 184 (some s!"ok:ntot={hdrLen + min (184 - hdrLen) n}:np={min (184 - hdrLen) n}:{hex (Spec.pesEncode { h with packetLength := expectLen } 0 (payload.take (min (184 - hdrLen) n)))}") "write-stale-length-fields")
     | none => pure ()
+  -- (6b) stream ids that carry no optional header (padding, private_stream_2, ECM, ...) although the struct holds one:
+  --      nothing of it is written or counted
+  for sid in [0xbc, 0xbe, 0xbf, 0xf0, 0xf1, 0xf2, 0xf8, 0xff] do
+    let oh ← liftGen (genPESOptionalHeader true 0)
+    let n ← liftGen (randRange 1 300)
+    let payload ← liftGen (randBytes n)
+    let h : PESHeader := { optionalHeader := some oh, streamID := sid }
+    let hn : PESHeader := { optionalHeader := none, streamID := sid }
+    if !hasPESOptionalHeader sid then
+      let np := min (184 - 6) n
+      let spec := Spec.pesEncode { hn with packetLength := pesPacketLengthFor hn n } 0 (payload.take np)
+      emit "C12" (writeCase h payload true 184 (some s!"ok:ntot={6 + np}:np={np}:{hex spec}") "write-no-optional-header-for-stream-id")
+  -- (6c) private data that is not 16 bytes long (the writer pads with zeros / cuts): correspondence only
+  for k in [0, 1, 15, 17, 40] do
+    let oh ← liftGen (genPESOptionalHeader true 0)
+    let pd ← liftGen (randBytes k)
+    let oh' := { oh with hasExtension := true, hasPrivateData := true, privateData := pd }
+    let h : PESHeader := { optionalHeader := some oh', streamID := 0xe0 }
+    emit "C12" (writeCase h [1, 2, 3] true 184 none "write-private-data-length")
   -- (7) Duration: single-bit and extreme values
   for v in tsValues do
     for e in [0, 1, 16, 299, 300, 511] do
@@ -160,6 +179,22 @@ def run (t : Tier) : Emit Unit := do
   let unit := Spec.pesEncode h 3 [1, 2, 3, 4, 5]
   for k in [0:unit.length + 1] do
     emit "C12" (parseCase (unit.take k) none "parse-truncated")
+  -- many headers (every combination of optional parts turns up), each cut at every offset, with and without a few
+  -- bytes of zeros behind the cut: a failed read must stay an error even if a later, shorter read succeeds
+  for _ in [0:30 * t.scale] do
+    let oh ← liftGen (genPESOptionalHeader false 2)
+    let h : PESHeader := { optionalHeader := some oh, streamID := 0xe0, packetLength := 0 }
+    let unit := Spec.pesEncode h 2 [9, 8, 7]
+    for k in [6:unit.length] do
+      emit "C12" (parseCase (unit.take k) none "parse-truncated-header")
+  -- every flags byte (which optional parts are announced) x 0..10 bytes behind the header_data_length byte, and
+  -- every extension flags byte x 0..6 bytes behind it: parts announced but not (wholly) there
+  for fl in [0:256] do
+    for k in [0:11] do
+      emit "C12" (parseCase ([0, 0, 1, 0xe0, 0, 0, 0x80, fl, 0] ++ (List.range k).map (· + 1)) none "parse-flags-x-short")
+  for fl in [0:256] do
+    for k in [0:7] do
+      emit "C12" (parseCase ([0, 0, 1, 0xe0, 0, 0, 0x80, 0x01, 0, fl] ++ (List.range k).map (· + 1)) none "parse-extflags-x-short")
   for _ in [0:300 * t.scale] do
     let sid ← liftGen genStreamID
     let oh ← liftGen (genPESOptionalHeader false 0)
@@ -168,5 +203,17 @@ def run (t : Tier) : Emit Unit := do
     let bs := Spec.pesEncode h 0 payload
     let i ← liftGen (randBelow bs.length); let v ← liftGen (randBelow 256)
     emit "C12" (parseCase (bs.set i v) none "parse-mutated")
+  -- (9) headers of a foreign encoder: PES extension with pack_header_field_flag set (the library never writes it, but
+  -- reads the length byte), every combination of the other extension flags, header_data_length around what is there
+  for fl in [0:32] do
+    let extFlags := 0x40 + (if fl % 2 = 1 then 0x80 else 0) + (if fl / 2 % 2 = 1 then 0x20 else 0) + (if fl / 4 % 2 = 1 then 0x10 else 0)
+                      + (if fl / 8 % 2 = 1 then 0x01 else 0) + (if fl / 16 % 2 = 1 then 0x0e else 0)
+    let rest ← liftGen (randBytes 40)
+    let packLen ← liftGen (pick [0, 1, 5, 14, 255])
+    let hdl ← liftGen (randRange 1 45)
+    let body : Bytes := [extFlags] ++ (if extFlags ≥ 0x80 then rest.take 16 else []) ++ [packLen] ++ rest.drop 16
+    let payload ← liftGen (randBytes 12)
+    let unit : Bytes := [0, 0, 1, 0xbd, 0, 0, 0x80, 0x01, hdl] ++ body ++ payload
+    emit "C12" (parseCase unit none "parse-pack-header-field")
 
 end Astits.DriverC12
